@@ -43,6 +43,8 @@ def describe(ver, o):
             else:
                 d[key] = sorted([k, v] for k, v in j.items())    # plain dict: content only
     d["eq_self"] = bool(o == o)
+    twin = type(o)(o.vector)
+    d["twin"] = [bool(o == twin), bool(o != twin), bool(o != o), hash(o) == hash(twin)]     # == and != must agree under every interpreter
     d["types"] = sorted(set(type(x).__name__ for x in o.scores()))
     return d
 
@@ -52,7 +54,15 @@ def ctor(classes, ver, s, rh=False):
     try:
         o = C.from_rh_vector(s) if rh else C(s)
     except Exception as e:
-        return {"exc": type(e).__name__, "msg": text_type(e)}
+        # an exception is the call's own: one that was already handed to an earlier caller (who may have annotated or chained it,
+        # and whose frames hang on its traceback) carries the earlier caller's mark
+        r = {"exc": type(e).__name__, "msg": text_type(e), "handed out before": bool(getattr(e, "_vf_seen", False)),
+             "chained": getattr(e, "__context__", None) is not None or getattr(e, "__cause__", None) is not None}
+        try:
+            e._vf_seen = True
+        except Exception:  # noqa
+            pass
+        return r
     return describe(ver, o)
 
 
@@ -67,7 +77,8 @@ class Lines(object):
         r = self.lines[self.i] + "\n"
         self.i += 1
         if PY2:
-            r = r.encode("utf-8")
+            # U+DC80..U+DCFF stand for bytes that are not valid UTF-8 (as in os.fsdecode on 3.x): a terminal or pipe can deliver them
+            r = b"".join(chr(ord(c) - 0xDC00) if 0xDC80 <= ord(c) <= 0xDCFF else c.encode("utf-8") for c in r)
         return r
 
     def read(self, *a):
